@@ -146,6 +146,30 @@ def check(run):
     run.ob("R16.4", "write_block(block):no-handler", not tries, wbb, wbb["line"], "write_block(block) propagates exceptions")
     run.floor("R16.4", 2, "write_block obligations")
 
+    # ---------------- R16.6 the buffered block is not cleared while an exception is on its way out
+    # (an explicit handler, or a guard object whose destructor also runs during unwinding - the normalisation writes such a
+    # guard out as a catch-all handler that performs its action and throws on)
+    n6 = 0
+    for f in facts.functions.values():
+        if f.get("cls") != EXP or f.get("body") is None or f.get("dtor"):
+            continue
+        for t_ in ir.walk(f["body"]):
+            if t_.get("k") != "Try":
+                continue
+            emits = [c for c in ir.calls_in(t_.get("body")) if callee_qn(c) in (EXP + "::write_block", ENC + "::write_break", ENC + "::rotate_output")]
+            if not emits:
+                continue
+            for h in t_.get("handlers", []):
+                n6 += 1
+                cl = [c for c in ir.calls_in(h.get("body")) if callee_qn(c) == "CDNS::CdnsBlock::clear" and (path(c.get("recv")) or ())[-1:] == ("m_block",)]
+                run.ob("R16.6", "%s:no-clear-while-unwinding#%d" % (short(f["qn"]) + f.get("targs", ""), n6), not cl, f, (cl[0] if cl else h).get("l", f["line"]),
+                       "the handler leaves the buffered block alone" if not cl else
+                       "m_block.clear() runs while an exception from %s() propagates (%s): after a failed write the records of the failed block are gone, "
+                       "the recovery output cannot contain them" % (callee_name(emits[0]), "a guard object's destructor" if t_.get("synthetic") else "explicit handler"))
+    if n6 == 0:
+        run.ob("R16.6", "no-handler-around-the-export", True, wb, wb["line"], "no handler (and no guard object) encloses a block export in the exporter", nontrivial=False)
+    run.floor("R16.6", 1, "handlers around block exports")
+
     # ---------------- R16.5 rotation starts the new output from a clean slate
     # Whatever exporter state decides how the next block is framed (is a file header due?) must be re-initialised by
     # rotate_output: otherwise a failure in the middle of a block leaves state behind that mis-frames the recovery output.
